@@ -3,11 +3,12 @@
    sumbool, sumor, comparison); no Extract Constant. *)
 Require Import ExtrOcamlBasic.
 From RaftLog Require Import Base.Bytes Base.Crc32 Model.Types Model.Codec Model.Cache
-  Model.Core Model.Recover Model.Run Model.Sys Spec.Spec Spec.Hist.
+  Model.Core Model.Recover Model.Run Model.Sys Model.Names Spec.Spec Spec.Hist.
 Extraction Language OCaml.
 Extraction "model.ml"
   enc_record dec_record rec_size crc32
   run_case run_ops open_dir worker_idle
   spec0 spec_apply spec_step spec_read spec_state write_legal swrites_of
   spec_wop wop_legal
-  zstep zinit sys2_of process_crash_image.
+  zstep zinit sys2_of process_crash_image
+  chunk_file_name parse_chunk_file_name.
